@@ -925,15 +925,14 @@ func c03ReevalCase(c *wk.Case) {
 // and exponent is an integer: with more than 800 digits it is out of int64's
 // range whatever its digits are (leading zeros aside).
 
-// c03PendingFix_LongNegZero: on the unchanged tree `-0.000…0` spelled with more
-// than 800 characters is +0 (sign bit clear) while the same numeral in up to 800
-// characters (`-0.0`, 700 zeros) is -0, as the existing negative-literal oracle
-// demands ("-"+spelling denotes -v, bit for bit): the repair of a7b8f21 replaces
-// the float of a long numeral by big.Rat.Float64 of its exact value, and a
-// big.Rat has no negative zero. Reported in /tmp/hw-C03/GENUINE.md (item 1).
-// While true, a long numeral whose digits are all zero is not negated; set it to
-// false once /repo is repaired.
-const c03PendingFix_LongNegZero = true
+// c03PendingFix_LongNegZero: `-0.000…0` spelled with more than 800 characters
+// was +0 (sign bit clear) while the same numeral in up to 800 characters (`-0.0`,
+// 700 zeros) is -0, as the negative-literal oracle demands ("-"+spelling denotes
+// -v, bit for bit): the repair of a7b8f21 replaced the float of a long numeral
+// by big.Rat.Float64 of its exact value, and a big.Rat has no negative zero.
+// Reported in /tmp/hw-C03/GENUINE.md (item 1), repaired in /repo as 6ccc49e: the
+// constant is false, long numerals whose digits are all zero are negated too.
+const c03PendingFix_LongNegZero = false
 
 func c03LongDigits(r *rand.Rand, n int) string {
 	b := make([]byte, n)
@@ -1109,7 +1108,12 @@ func c03LongNumerals(c *wk.Case, r *rand.Rand, n int, fixed bool) {
 			{"9007199254740993" + strings.Repeat("0", 900) + "e-900", 9007199254740992},
 			{"9007199254740993" + strings.Repeat("0", 899) + "1e-900", 9007199254740994},
 			{"9007199254740993." + strings.Repeat("0", 899) + "1", 9007199254740994},
+			{"0." + strings.Repeat("0", 900), 0}, // negated below: -0, as `-0.0` (c03PendingFix_LongNegZero)
+			{strings.Repeat("0", 850) + ".0e5", 0},
 		} {
+			if c03PendingFix_LongNegZero && f.f == 0 {
+				continue
+			}
 			c03LitMust(c, "float-long-fixed", f.s, c03Want{kind: 'f', f: f.f}, r.Intn(len(c03LitCtx)))
 			c03LitNeg(c, "neg-float-long", f.s, c03Want{kind: 'f', f: f.f}, "", false)
 		}
